@@ -1150,7 +1150,7 @@ def c12(ctx):
             'under -race with a deadlock watchdog, DetailedError prefix checked on every failing Bind; theorems over the debug-lock machine')
     ob, dis, details = proof_obligations(ctx, 'C12')
     n = 1500 if ctx.tier == 'quick' else 15000
-    cases = load_cases(ctx, 'debug', n)
+    cases = (load_cases(ctx, 'debug', n) or []) + (load_cases(ctx, 'debug', n // 3, 'reorderplain') or [])
     st = collections.Counter(); distinct = set()
     for c in cases or []:
         for l in pair_lines(c):
